@@ -1,4 +1,5 @@
 import Proofs.Chain
+import Proofs.Events
 import Pegnet.Generated.Facts
 /-
   C11 — Grading rewards and FCT burns are issued exactly as decided, once.
@@ -134,6 +135,21 @@ theorem burns_only_before_v20 (P : Params) (b : Block) (hh : ¬ b.height < P.act
   unfold rewardPhase
   simp [hh]
 
+/-- **Rewards are issued exactly as decided, to the payout address named, and to nobody else**:
+    whatever list of winners the grader returns, applying it changes — for every address and every
+    asset — only the PEG balance of the addresses the winning records name, by the sum of the
+    payouts of the records naming that address; records whose address does not parse pay nothing
+    (`oprCredit` / `sprCredit` filter on the parsed address). -/
+theorem opr_rewards_exact (P : Params) (oh ts : Int) (ws : List OprW) (s : DB) :
+    Outcome (applyGradedOPR P oh ts ws s)
+      (fun _ s' => ∀ a x, s'.bal a x = s.bal a x + (if x = tPEG then oprCredit a ws else 0)) :=
+  oprRewards_exact P oh ts ws s
+
+theorem spr_rewards_exact (P : Params) (oh ts : Int) (ws : List SprW) (s : DB) :
+    Outcome (applyGradedSPR P oh ts ws s)
+      (fun _ s' => ∀ a x, s'.bal a x = s.bal a x + (if x = tPEG then sprCredit a ws else 0)) :=
+  sprRewards_exact P oh ts ws s
+
 end Pegnet.C11
 
 #print axioms Pegnet.C11.version_ladders_match_source
@@ -148,3 +164,5 @@ end Pegnet.C11
 #print axioms Pegnet.C11.non_burn_credits_nothing
 #print axioms Pegnet.C11.burn_credits_exactly
 #print axioms Pegnet.C11.burns_only_before_v20
+#print axioms Pegnet.C11.opr_rewards_exact
+#print axioms Pegnet.C11.spr_rewards_exact
